@@ -149,6 +149,7 @@ type Token struct {
 	Revoked   bool
 	RefreshID string
 	Flow      string
+	Actor     string // token exchange only: the actor (subject of the actor token) the request was made for
 }
 
 type Refresh struct {
@@ -162,6 +163,7 @@ type Refresh struct {
 	Expiry   time.Time
 	Live     bool
 	AccessID string
+	Actor    string // token exchange only, see Token.Actor
 }
 
 // RefreshReq is handed out per call (it has a setter, so never shared).
@@ -249,6 +251,9 @@ type Store struct {
 	UserinfoClaims  map[string]any
 	TEPolicy        TEPolicy
 	TEImpersonateAs string
+	TEActorClaim    bool // token exchange: private claims / userinfo of the issued JWT carry "act":{"sub":<actor>} (zero: no such claim)
+	TENoRefreshVet  bool // ValidateTokenExchangeRequest does not re-check refresh-token subjects/actors (it trusts the framework's TokenRequestByRefreshToken look-up); zero: re-checked
+	TEJWTTypeOK     bool // ValidateTokenExchangeRequest lets urn:...:jwt typed tokens pass (they were verified by a TokenExchangeTokensVerifierStorage wrapper); zero: refused
 	JWTProfileType  op.AccessTokenType
 	LogoutRedirect  string // returned by TerminateSessionFromRequest when non-empty
 	HealthErr       error
@@ -718,6 +723,14 @@ func describe(req op.TokenRequest) (reqInfo, error) {
 	return reqInfo{"unknown", "", req.GetSubject(), req.GetScopes(), req.GetAudience(), nil, time.Time{}}, nil
 }
 
+// teActor is the actor of a token exchange request ("" for every other kind of request).
+func teActor(req op.TokenRequest) string {
+	if te, ok := req.(op.TokenExchangeRequest); ok {
+		return te.GetExchangeActor()
+	}
+	return ""
+}
+
 func (s *Store) mint(info reqInfo) *Token {
 	now := time.Now()
 	t := &Token{
@@ -745,6 +758,7 @@ func (s *Store) CreateAccessToken(ctx context.Context, req op.TokenRequest) (str
 		return "", time.Time{}, derr
 	}
 	t := s.mint(info)
+	t.Actor = teActor(req)
 	s.leave(idx, t.ID, nil)
 	return t.ID, t.Expiry, nil
 }
@@ -782,6 +796,7 @@ func (s *Store) CreateAccessAndRefreshTokens(ctx context.Context, req op.TokenRe
 	}
 	s.refresh[r.ID] = r
 	t.RefreshID = r.ID
+	t.Actor, r.Actor = teActor(req), teActor(req)
 	s.leave(idx, t.ID+"|"+r.ID, nil)
 	return t.ID, r.ID, t.Expiry, nil
 }
@@ -1165,12 +1180,19 @@ func (s *Store) vetTEToken(kind string, tt oidc.TokenType, idOrToken, subject st
 			return oidc.ErrInvalidRequest().WithDescription(kind + "_token is not live")
 		}
 	case oidc.RefreshTokenType:
+		if s.TENoRefreshVet {
+			break
+		}
 		r := s.refresh[idOrToken]
 		if !s.refreshLive(r) || r.Subject != subject {
 			return oidc.ErrInvalidRequest().WithDescription(kind + "_token is not live")
 		}
 	case oidc.IDTokenType:
 		// verified (signature, issuer, expiry) by the framework
+	case oidc.JWTTokenType:
+		if !s.TEJWTTypeOK {
+			return oidc.ErrInvalidRequest().WithDescription(kind + "_token_type not accepted")
+		}
 	default:
 		return oidc.ErrInvalidRequest().WithDescription(kind + "_token_type not accepted")
 	}
@@ -1234,6 +1256,9 @@ func (s *Store) getPrivateClaimsFromTokenExchangeRequest(ctx context.Context, re
 	for k, v := range s.PrivateClaims {
 		out[k] = v
 	}
+	if s.TEActorClaim && req.GetExchangeActor() != "" {
+		out["act"] = map[string]any{"sub": req.GetExchangeActor()}
+	}
 	return out, nil
 }
 
@@ -1246,6 +1271,9 @@ func (s *Store) setUserinfoFromTokenExchangeRequest(ctx context.Context, ui *oid
 	}
 	ui.Subject = req.GetSubject()
 	s.fillUser(ui, req.GetSubject(), req.GetScopes())
+	if s.TEActorClaim && req.GetExchangeActor() != "" {
+		ui.AppendClaims("act", map[string]any{"sub": req.GetExchangeActor()})
+	}
 	return nil
 }
 
